@@ -20,7 +20,7 @@ impl Guard {
 #[derive(Clone, Debug, Serialize, Deserialize)]
 struct Branch { guard: Guard, target: usize /* state index; usize::MAX = Done */, dn: u64, add: u64 }
 #[derive(Clone, Debug, Serialize, Deserialize)]
-struct Machine { states: Vec<Vec<Branch>>, start_add: u64 }
+struct Machine { states: Vec<Vec<Branch>>, start_add: u64, #[serde(default)] split: Vec<usize> /* per state: 0 = one arm, k = a second arm for the same state starts at branch k */ }
 
 const NAMES: [&str; 4] = ["A", "B", "C", "D"];
 const DONE: usize = 99;
@@ -33,15 +33,28 @@ impl Machine {
     s.push_str("  └ :Done(out<u64>).\n\n");
     s.push_str(&format!("#M(n<u64>) -> :A(n, {}u64)\n", self.start_add));
     for (i, brs) in self.states.iter().enumerate() {
-      s.push_str(&format!("  :{}(n, a)\n", NAMES[i]));
-      for (j, b) in brs.iter().enumerate() {
-        let lead = if j + 1 == brs.len() { "└" } else { "├" };
-        let tgt = if broken == "undeclared-target" && i == 0 && j == 0 { ":Phantom(n, a)".to_string() } else if b.target == DONE { format!(":Done(a + {}u64)", b.add) } else { format!(":{}(n - {}u64, a + {}u64)", NAMES[b.target], b.dn, b.add) };
-        s.push_str(&format!("    {} {} -> {}\n", lead, b.guard.text(), tgt));
+      let k = self.split.get(i).cloned().unwrap_or(0);
+      let groups: Vec<(usize, usize)> = if k > 0 && k < brs.len() { vec![(0, k), (k, brs.len())] } else { vec![(0, brs.len())] };
+      for (lo, hi) in groups {
+        let tgt_of = |j: usize, b: &Branch| if broken == "undeclared-target" && i == 0 && j == 0 { ":Phantom(n, a)".to_string() } else if b.target == DONE { format!(":Done(a + {}u64)", b.add) } else { format!(":{}(n - {}u64, a + {}u64)", NAMES[b.target], b.dn, b.add) };
+        // a group that consists of the unguarded fallback alone is written as a direct transition
+        if hi - lo == 1 && brs[lo].guard.kind == "any" && lo > 0 { s.push_str(&format!("  :{}(n, a) -> {}\n", NAMES[i], tgt_of(lo, &brs[lo]))); continue; }
+        s.push_str(&format!("  :{}(n, a)\n", NAMES[i]));
+        for j in lo..hi {
+          let lead = if j + 1 == hi { "└" } else { "├" };
+          s.push_str(&format!("    {} {} -> {}\n", lead, brs[j].guard.text(), tgt_of(j, &brs[j])));
+        }
       }
     }
     s.push_str("  :Done(out) => out.\n");
     s
+  }
+  /// index of the state block (as written) that holds branch j of state st
+  fn block_of(&self, st: usize, j: usize) -> usize {
+    let mut idx = 0;
+    for i in 0..st { let k = self.split.get(i).cloned().unwrap_or(0); idx += if k > 0 && k < self.states[i].len() { 2 } else { 1 }; }
+    let k = self.split.get(st).cloned().unwrap_or(0);
+    idx + if k > 0 && k < self.states[st].len() && j >= k { 1 } else { 0 }
   }
   /// reference simulation: (visited (state, branch index) sequence, result) or None when the limit is exceeded
   fn simulate(&self, n0: u64, limit: usize) -> Option<(Vec<(usize, usize, u64, u64)>, u64)> {
@@ -75,7 +88,10 @@ fn gen_machine(rng: &mut Rng, terminating: bool) -> Machine {
     brs.push(Branch { guard: Guard { kind: "any".into(), c: 0 }, target: if looping { 0 } else { DONE }, dn: 0, add: if looping { 0 } else { 100 + rng.below(50) } });
     states.push(brs);
   }
-  Machine { states, start_add: rng.below(7) }
+  // half of the states with several branches are written as two arms for the same state (a guard arm whose guards may all
+  // fail, then the rest): the run must fall through to the later arm
+  let split: Vec<usize> = states.iter().map(|b: &Vec<Branch>| if b.len() >= 2 && rng.chance(1, 2) { 1 + rng.below(b.len() as u64 - 1) as usize } else { 0 }).collect();
+  Machine { states, start_add: rng.below(7), split }
 }
 
 fn parse_transition(msg: &str) -> Option<(usize, String, Vec<u64>)> {
@@ -114,6 +130,10 @@ impl Prop for C17 {
     for (k, xs) in [vec![5u64, 3, 8], vec![1], vec![2, 2, 2, 2, 2], vec![9, 1], vec![4, 0, 6, 7]].iter().enumerate() {
       out.push(Case { id: format!("array;sum;k={}", k), cell: "array;sum".into(), input: json!({"mode": "array", "xs": xs}) });
     }
+    // array state patterns whose variables are bound again in a later step (prefix, suffix and both ends)
+    for (k, (a, b)) in [(vec![5u64, 3, 8], vec![1u64, 9]), (vec![7], vec![7]), (vec![1, 5, 9], vec![2, 4, 12]), (vec![2, 2], vec![3, 1, 6, 6]), (vec![0, 4], vec![9, 9, 9])].iter().enumerate() {
+      for shape in ["last", "first", "span"] { out.push(Case { id: format!("array;rebind;shape={};k={}", shape, k), cell: format!("array;rebind;{}", shape), input: json!({"mode": "array2", "a": a, "b": b, "shape": shape}) }); }
+    }
     out
   }
 
@@ -148,7 +168,7 @@ impl Prop for C17 {
           let (arm, name, vals) = &trans[k];
           let b = &m.states[*st][*j];
           let (wname, wvals) = if b.target == DONE { ("Done".to_string(), vec![aa + b.add]) } else { (NAMES[b.target].to_string(), vec![nn - b.dn, aa + b.add]) };
-          if *arm != *st || *name != wname || *vals != wvals { return Outcome::violated("visited-sequence-differs", format!("{}\ntransition {}: traced arm[{}] -> :{}{:?} but the reference takes state {} branch {} -> :{}{:?}", src, k, arm, name, vals, NAMES[*st], j, wname, wvals)); }
+          if *arm != m.block_of(*st, *j) || *name != wname || *vals != wvals { return Outcome::violated("visited-sequence-differs", format!("{}\ntransition {}: traced arm[{}] -> :{}{:?} but the reference takes state {} branch {} -> :{}{:?}", src, k, arm, name, vals, NAMES[*st], j, wname, wvals)); }
         }
         Outcome::held().num("transitions", trans.len() as f64).num("trace_events", ev.len() as f64)
       }
@@ -182,6 +202,19 @@ impl Prop for C17 {
         let want: u64 = xs.iter().sum();
         let nt = ev.iter().filter(|(l, _)| l == "transition").count();
         match &res { Ev::Ok(CVal::S(_, Sc::U(g))) if *g as u64 == want => if nt == xs.len() + 1 { Outcome::held() } else { Outcome::violated("visited-sequence-differs", format!("{}\n{} transitions traced, expected {}", src, nt, xs.len() + 1)) }, other => Outcome::violated("wrong-result", format!("{}\nreturned {} expected {}", src, other.show(), want)) }
+      }
+      "array2" => {
+        let a: Vec<u64> = serde_json::from_value(case.input["a"].clone()).unwrap();
+        let b: Vec<u64> = serde_json::from_value(case.input["b"].clone()).unwrap();
+        let shape = case.input["shape"].as_str().unwrap();
+        let (pat, expr, f): (&str, &str, fn(&Vec<u64>) -> u64) = match shape { "last" => ("[… y]", "y", |v| v[v.len() - 1]), "first" => ("[y …]", "y", |v| v[0]), _ => ("[lo … hi]", "hi + lo", |v| v[v.len() - 1] + v[0]) };
+        if shape == "span" && (a.len() < 2 || b.len() < 2) { return Outcome::trivial(); }
+        let l = |v: &Vec<u64>| format!("[{}]", v.iter().map(|x| format!("{}u64", x)).collect::<Vec<_>>().join(" "));
+        let src = format!("#Two(a<[u64]>, b<[u64]>) => <u64>\n  ├ :Step(xs<[u64]>, ys<[u64]>, acc<u64>)\n  └ :Done(out<u64>).\n\n#Two(a<[u64]>, b<[u64]>) -> :Step(a, b, 0u64)\n  :Step({p}, [], acc) -> :Done(acc + {e})\n  :Step({p}, next, acc) -> :Step(next, [], acc + {e})\n  :Done(out) => out.\n\n#Two({x}, {y})", p = pat, e = expr, x = l(&a), y = l(&b));
+        let (res, ev) = traced(&src, None);
+        let want = f(&a) + f(&b);
+        let nt = ev.iter().filter(|(l, _)| l == "transition").count();
+        match &res { Ev::Ok(CVal::S(_, Sc::U(g))) if *g as u64 == want => if nt == 2 { Outcome::held() } else { Outcome::violated("visited-sequence-differs", format!("{}\n{} transitions traced, expected 2", src, nt)) }, Ev::Panic(p) => Outcome::violated("panic-escaped", p.clone()), other => Outcome::violated("wrong-result", format!("{}\nreturned {} expected {}", src, other.show(), want)) }
       }
       _ => Outcome::inconclusive("bad-mode", String::new()),
     }
